@@ -16,7 +16,7 @@ use std::io::Write;
 use xml_schema_generator::verif;
 
 pub const COLLISION_POOL: &[&str] = &[
-    "Foo", "foo", "type", "r_type", "p_type", "a-b", "a.b", "ns:c", "ns_c", "a", "b",
+    "Foo", "foo", "type", "r_type", "p_type", "a-b", "a.b", "ns:c", "ns_c", "c", "a", "b",
 ];
 
 fn space_cfg(names: &[&str], w: usize) -> SpaceCfg {
@@ -488,7 +488,7 @@ pub fn run(ctx: &Ctx) {
     ctx.set("free_running_fresh_threads_per_case", json!(fresh + 1));
     ctx.set(
         "rule",
-        json!("cases = every document of weight <= W and every ordered pair (first of weight <= 2, second of weight <= 1 quick / 2 thorough) over root r, element p and each 2-subset (quick) / 3-subset (thorough) of a pool of names whose field identifiers collide (Foo/foo, type/r_type/p_type, a-b/a.b, ns:c/ns_c, a, b), plus documents and pairs whose elements carry attribute sequences over {Foo, foo, y}, wide elements (7..17 struct-typed children with subtrees of different sizes), and triples of plain documents. states = executions of parse+extend+render (both sort options, both presets) under the order explorer: every HashMap iteration in library code is a choice point (<= 3 entries: all n! orders; more: adjacent transpositions and reversal), all assignments with at most `deviation_bound` non-default orders; transitions = choice points taken. Every case is then repeated on the hooks-off build (real HashMap): 3x in one thread, in fresh threads and in a second process"),
+        json!("cases = every document of weight <= W and every ordered pair (first of weight <= 2, second of weight <= 1 quick / 2 thorough) over root r, element p and each 2-subset (quick) / 3-subset (thorough) of a pool of names whose field identifiers collide (Foo/foo, type/r_type/p_type, a-b/a.b, ns:c/ns_c/c (ns:c and c differ only in the prefix), a, b), plus documents and pairs whose elements carry attribute sequences over {Foo, foo, y}, wide elements (7..17 struct-typed children with subtrees of different sizes), and triples of plain documents. states = executions of parse+extend+render (both sort options, both presets) under the order explorer: every HashMap iteration in library code is a choice point (<= 3 entries: all n! orders; more: adjacent transpositions and reversal), all assignments with at most `deviation_bound` non-default orders; transitions = choice points taken. Every case is then repeated on the hooks-off build (real HashMap): 3x in one thread, in fresh threads and in a second process"),
     );
     ctx.assume("hash iteration order is modelled as an arbitrary permutation chosen per (map instance, key set); a divergence is reported as a violation only with the class `hash-order` when the shipped library (real HashMap) shows two different outputs in fresh threads");
 }
